@@ -2,7 +2,7 @@ CONSTANTS
   AttrSeq <- MCAttrSeq
   NCol = 2
   NLink = 2
-  NSeed = 7
+  NSeed = 6
   GenDepth = 3
   HashDesign = "derived"
 INIT LawInit
